@@ -89,7 +89,7 @@ def s2_tasks(tier):
         for first in [s[0] for s in far_alphabet()] + [None]:
             s2.append(dict(kind='farctx', pre=pre, first=first))
     # constant-target family: call / tail / jal to an absolute address given as a constant, at every low-12-bit phase of the distance
-    for base in (0x20000000, 0x100000, 0x40):
+    for base in (0x20000000, 0x100000, 0x40, 0x100, 0x800, 0x1000):
         s2.append(dict(kind='consttarget', base=base))
     return s2
 
@@ -124,10 +124,13 @@ def s2_programs(task):
         for d in range(0, 48, 2):
             for n in range(0, 12):
                 k = L.const('K', hex(base + d), base + d)
-                pad = [progs.I('addi', rd=8, rs1=8, imm=1)] * n
-                yield [k] + pad + [L.call('K'), L.call('K', tail=True)]
-                if base < 0x100000:
-                    yield [k] + pad + [progs.I('jal', 'jal x1, K', rd=1, imm=('offset', 'K')), progs.I('jal', 'j K', rd=0, imm=('offset', 'K'))]
+                for pad in ([progs.I('addi', rd=8, rs1=8, imm=1)] * n, [L.li(9, 1)] * n if n else None):
+                    if pad is None:
+                        continue
+                    yield [k] + pad + [L.call('K'), L.call('K', tail=True)]
+                    if base < 0x100000:
+                        yield [k] + pad + [progs.I('jal', 'jal x1, K', rd=1, imm=('offset', 'K')), progs.I('jal', 'j K', rd=0, imm=('offset', 'K'))]
+                        yield [k] + pad + [progs.I('beq', 'beq x8, x0, K', rs1=8, rs2=0, imm=('offset', 'K')), progs.I('bne', 'bnez x9, K', rs1=9, rs2=0, imm=('offset', 'K'))]
         return
     if task.get('kind') == 'farctx':
         alpha = far_alphabet()
